@@ -9,6 +9,8 @@ Domain : the real `BasicEmbeddingsIndex` with a deterministic fake embedding mod
          (same loop, same engine) with another embedding model - other vectors, for two of the models another
          dimension, for the same texts - and mostly the very same cache configuration; their items are added
          before / between / after those of the first index and their requests interleave with its requests.
+         About a third of the cases contain client cancellations: the task of one to three of the requests is
+         cancelled a drawn virtual time after the request arrived (hold window / model embedding / after completion).
 Oracle : every fake model is a pure function `vec(text, model)` (sha256 -> 16 floats for the first index's model;
          sha512 of model name and text -> 8/16/24 floats for the others); per index: `vec(text, its model)`.
          Every request must complete
@@ -16,6 +18,7 @@ Oracle : every fake model is a pure function `vec(text, model)` (sha256 -> 16 fl
          `_batch_get_embeddings` / `_get_embeddings` must equal `vec(text)` per text in input order, the
          stored item embeddings must equal `vec(item.text)`, and the public `search(text)` must rank an item
          with the identical text first.  After the last request nothing may be left pending on the loop.
+         A request whose task the harness cancelled is exempt from all of this; every other request is not.
 """
 import asyncio
 import hashlib
@@ -50,14 +53,31 @@ RULE = (
     "The oracle is per index (vector == that index's model(text), stored item embeddings, search rank, completion). A grid of "
     "two-index cases (4 cache configurations x 3 other models x 3 set-up orders x batching) is enumerated. Module-level "
     "containers of the embeddings modules are reset to their post-import content before every case. "
+    "CLIENT CANCELLATIONS are further events of the schedule (key 'cancels', about a third of the generated cases, 1-3 "
+    "victims drawn from all the requests of the case - any index, any operation, any position in its burst): the asyncio "
+    "task of request i is cancelled (task.cancel(), what asyncio.wait_for does on a client timeout) `after` virtual seconds "
+    "after the request arrived, `after` = fraction {0,1/4,1/2,3/4,1} of the index's hold time + fraction {0..1} of one of the "
+    "case's model latencies, or an arbitrary float in 0..0.6: before its batch is submitted (hold window / waiting for room in "
+    "a full queue), while the model embeds its batch (for list / non-batched requests the model call itself is cancelled), "
+    "or after it completed (no-op), with other requests of the same index waiting that arrived before and/or after the "
+    "victim (labels cancel:<phase>:other-requests-waiting:arrived-before/after). Nothing is asserted about a request whose "
+    "task was really cancelled; every other request must complete with its own vectors as always, and a CancelledError "
+    "surfacing in a request nobody cancelled counts as 'did not complete'. A grid (batch size below/above a burst of "
+    "3-4 simultaneous requests x victim position x cancel in the hold window / during the model call / after completion x "
+    "op x cache) is enumerated. "
     "Non-trivial = at least two model calls in flight at the same time, or a request arrived while the batching "
-    "queue was full, or (cache on) a duplicate text inside one model batch / one list request; distinct by case hash."
+    "queue was full, or (cache on) a duplicate text inside one model batch / one list request, or a request really "
+    "cancelled while another request of the same index was waiting; distinct by case hash."
 )
 ASSUMPTIONS = [
     "the embedding model never raises and returns python floats (DESIGN S: a failing model is out of scope)",
     "items are added sequentially before the concurrent phase (concurrent add_items is not part of the statement)",
     "search() is only compared for query texts that are indexed (top result must carry the identical text); Annoy is exact at <= 15 items",
     "schedules are asyncio interleavings at the suspension points of the code (model call, hold timer, events); no OS threads",
+    "a client that gives up is an asyncio task cancellation of that one request (search / _batch_get_embeddings / "
+    "_get_embeddings task) while it is suspended; the statement's 'every concurrent request completes / gets its own "
+    "vector' is asserted for all requests that were NOT cancelled, nothing for the cancelled one (it may raise "
+    "CancelledError, complete, or leave a result behind); items are never added under cancellation",
     "each case uses fresh indexes and a fresh filesystem cache directory (no cross-case cache state); module-level containers "
     "(dict/list/set) of nemoguardrails.embeddings.{cache,basic,providers} are put back to their content after import before "
     "each case, so that a case replayed alone sees what it saw in the run",
@@ -177,7 +197,13 @@ def _register():
         async def encode_async(self, documents):
             rec, lat = _CTX.begin(documents)
             rec["model"] = self.model
-            await asyncio.sleep(lat)
+            try:
+                await asyncio.sleep(lat)
+            except asyncio.CancelledError:
+                # the client of a non-batched / list request gave up while the model was embedding
+                rec["cancelled"] = True
+                _CTX.end(rec)
+                raise
             _CTX.end(rec)
             return [vec(t, self.model) for t in rec["texts"]]
 
@@ -263,6 +289,22 @@ def _case(draw):
             req["ix"] = draw(st.integers(1, len(others)))
         requests.insert(draw(st.integers(0, len(requests))), req)
     latencies = draw(st.lists(st.sampled_from(LATENCIES), min_size=1, max_size=6))
+    # client cancellations as further events of the schedule: the task of a request is cancelled (task.cancel(), what
+    # asyncio.wait_for does on a client timeout) `after` virtual seconds after the request arrived - fractions of
+    # the hold time plus fractions of a model latency (hold window / model embedding / after completion) or any
+    # float.  Victims are drawn from all the requests, so they sit before, between and after the others of a burst.
+    cancels = []
+    if draw(st.integers(0, 3)) == 0:
+        for _ in range(draw(st.sampled_from([1, 1, 1, 2, 3]))):
+            i = draw(st.integers(0, len(requests) - 1))
+            h = [hold] + [o["max_batch_hold"] for o in others]
+            a = draw(st.sampled_from([0, 0, 0.25, 0.5, 0.75, 1])) * h[requests[i].get("ix", 0)]
+            b = draw(st.sampled_from([0, 0, 0, 0.25, 0.5, 0.5, 0.75, 1])) * draw(st.sampled_from(latencies))
+            after = draw(st.sampled_from([round(a + b, 6)] * 3 + [round(a, 6), round(b, 6), None]))
+            if after is None:
+                after = draw(st.floats(0, 0.6).map(lambda x: round(x, 4)))
+            if not any(c["req"] == i for c in cancels):
+                cancels.append({"req": i, "after": after})
     case = {
         "use_batching": use_batching,
         "max_batch_size": mbs,
@@ -272,6 +314,8 @@ def _case(draw):
         "requests": requests,
         "latencies": latencies,
     }
+    if cancels:
+        case["cancels"] = cancels
     if others:
         case["others"] = others
         # whose chunk of items is added next (an index is built right after its last chunk)
@@ -340,6 +384,24 @@ def enumerate_cases(tier):
                         "requests": requests,
                         "latencies": [0, 0.01, 0],
                     }
+    # one client gives up: n simultaneous single-text requests, the g-th one is cancelled while the batch still
+    # collects requests (hold window), while the model embeds the batch, and after everything completed; batch
+    # size below / above the burst, with and without cache
+    for mbs, n in ((10, 4), (2, 4), (3, 3)):
+        for cache in (None, CACHES[1], CACHES[3]):
+            for op in ("embed", "search"):
+                for g in range(n):
+                    for after in (0.0025, 0.03, 0.5):
+                        yield {
+                            "use_batching": True,
+                            "max_batch_size": mbs,
+                            "max_batch_hold": 0.01,
+                            "cache": cache,
+                            "items": [POOL[:5]],
+                            "requests": [{"at": 0, "op": op, "texts": [POOL[i] if op == "search" else f"q{i}"]} for i in range(n)],
+                            "cancels": [{"req": g, "after": after}],
+                            "latencies": [0, 0.05],
+                        }
 
 
 # ---------------------------------------------------------------------------------------------
@@ -357,6 +419,10 @@ def _own_frame(exc):
 async def _request(index, i, req, out, flags):
     await asyncio.sleep(req["at"])
     op, texts = req["op"], req["texts"]
+    flags["started"][i] = len(flags["started"])
+    flags["started_at"][i] = asyncio.get_running_loop().time()
+    if i in flags["give_up"]:
+        flags["give_up"][i]()
     if index.use_batching and op != "list":
         q = getattr(index, "_req_queue", None)
         if q is not None and len(q) >= index.max_batch_size:
@@ -369,6 +435,11 @@ async def _request(index, i, req, out, flags):
             out[i] = ("vec", [await index._batch_get_embeddings(texts[0])])
         else:
             out[i] = ("vec", await index._get_embeddings(list(texts)))
+    except asyncio.CancelledError:
+        if i in flags["cancelled"] or flags["stage"] != "requests":
+            raise  # the harness cancelled this request (client gave up) or is shutting the loop down
+        # nobody cancelled THIS request: it was dragged along by somebody else's cancellation
+        out[i] = ("raised", "CancelledError although this request was not cancelled")
     except Exception as e:  # the model never raises: an exception means the request did not complete
         if _own_frame(e):
             raise
@@ -400,8 +471,48 @@ async def _main(indexes, specs, case, out, flags):
             await index.build()
     flags["setup_calls"] = len(_CTX.calls)
     flags["stage"] = "requests"
-    tasks = [asyncio.ensure_future(_request(indexes[r.get("ix", 0)], i, r, out, flags)) for i, r in enumerate(case["requests"])]
-    await asyncio.gather(*tasks)
+    reqs = case["requests"]
+
+    async def give_up(c):
+        # started by the request when it arrives: its client gives up `after` seconds later
+        i = c["req"]
+        await asyncio.sleep(c["after"])
+        k = reqs[i].get("ix", 0)
+        started, done = flags["started"], flags["done_at"]
+        waiting = [j for j in started if j != i and j not in done and j not in flags["cancelled"] and reqs[j].get("ix", 0) == k]
+        rec = {"req": i, "t": asyncio.get_running_loop().time(), "effective": False, "before": False, "after": False}
+        if tasks[i].done():
+            rec["phase"] = "after-completion"
+        else:
+            # a batched request waits first for its batch to be submitted (queue full / hold window), then for the
+            # model; a list or non-batched request only for the model
+            batched = specs[k]["use_batching"] and reqs[i]["op"] != "list"
+            busy = batched and any(
+                cl["t1"] is None and cl.get("model") == specs[k]["model"] and cl["t0"] >= flags["started_at"][i] and reqs[i]["texts"][0] in cl["texts"]
+                for cl in _CTX.calls
+            )
+            rec["phase"] = "while-model-embeds" if busy or not batched else "before-batch-submitted"
+            rec["before"] = any(started[j] < started[i] for j in waiting)
+            rec["after"] = any(started[j] > started[i] for j in waiting)
+            flags["cancelled"].add(i)
+            rec["effective"] = bool(tasks[i].cancel())
+        flags["cancel_log"].append(rec)
+
+    flags["give_up"] = {c["req"]: (lambda c=c: cancellers.append((c, asyncio.ensure_future(give_up(c))))) for c in case.get("cancels") or []}
+    cancellers = []
+    tasks = [asyncio.ensure_future(_request(indexes[r.get("ix", 0)], i, r, out, flags)) for i, r in enumerate(reqs)]
+    results = await asyncio.gather(*tasks, return_exceptions=True)
+    for _, t in cancellers:
+        if not t.done():  # the request completed before its client would have given up
+            t.cancel()
+    for (c, _), t in zip(cancellers, await asyncio.gather(*(t for _, t in cancellers), return_exceptions=True)):
+        if isinstance(t, asyncio.CancelledError):
+            flags["cancel_log"].append({"req": c["req"], "t": None, "effective": False, "before": False, "after": False, "phase": "after-completion"})
+        elif isinstance(t, BaseException):
+            raise t
+    for i, res in enumerate(results):
+        if isinstance(res, BaseException) and not (isinstance(res, asyncio.CancelledError) and i in flags["cancelled"]):
+            raise res
     flags["stage"] = "drain"
     # let cancelled helper tasks unwind and every timer the indexes may still own expire
     await asyncio.sleep(max(s["max_batch_hold"] for s in specs) + max(case["latencies"]) + 1.0)
@@ -460,6 +571,7 @@ def prop(case):
     loop = vclock.VirtualLoop(max_steps=MAX_STEPS)
     asyncio.set_event_loop(loop)
     out, flags = {}, {"queue_full_arrivals": 0, "done_at": {}, "stage": "setup", "left": [], "added": [[] for _ in specs]}
+    flags.update({"started": {}, "started_at": {}, "cancelled": set(), "cancel_log": []})
     interrupted = True
     try:
         indexes = [
@@ -481,12 +593,14 @@ def prop(case):
             interrupted = False
             if flags["stage"] == "setup":
                 raise  # sequential add_items/build cannot deadlock unless the harness is wrong
-            missing = [i for i in range(len(case["requests"])) if i not in out]
+            missing = [i for i in range(len(case["requests"])) if i not in out and i not in flags["cancelled"]]
             kind = "deadlock" if isinstance(e, vclock.Deadlock) else "livelock"
             raise Violation(
                 kind,
                 f"{cfg}: requests {missing[:8]} of {len(case['requests'])} never completed "
-                f"(first: {case['requests'][missing[0]] if missing else None}); {e}",
+                f"(first: {case['requests'][missing[0]] if missing else None})"
+                + (f" after the client of request(s) {sorted(flags['cancelled'])} gave up (cancel log {flags['cancel_log']})" if flags["cancelled"] else "")
+                + f"; {e}",
             )
         except Exception:
             interrupted = False
@@ -499,11 +613,15 @@ def prop(case):
         _check_items(indexes, specs, flags, cfgs)
         all_texts = sorted({t for s in specs for chunk in s["items"] for t in chunk} | {x for r in case["requests"] for x in r["texts"]})
         for i, req in enumerate(case["requests"]):
+            if i in flags["cancelled"]:
+                continue  # the client gave up: nothing is promised to (or asserted about) this request
             kind, val = out[i]
             k = req.get("ix", 0)
             model = specs[k]["model"]
             indexed = flags["added"][k]
             what = f"{cfgs[k]}: request #{i} {req['op']}({req['texts']!r}) at t+{req['at']}"
+            if flags["cancelled"]:
+                what += f" [client of request(s) {sorted(flags['cancelled'])} gave up: {flags['cancel_log']}]"
             if kind == "raised":
                 raise Violation("request-raised", f"{what} did not complete: {val}")
             if kind == "vec":
@@ -554,7 +672,9 @@ def prop(case):
         or any(r["op"] == "list" and len(set(r["texts"])) < len(r["texts"]) and specs[r.get("ix", 0)]["cache"] for r in case["requests"])
     )
     qfull = flags["queue_full_arrivals"] > 0
-    nt = inflight >= 2 or qfull or dup_batch
+    clog = flags["cancel_log"]
+    cancel_nt = any(c["effective"] and (c["before"] or c["after"]) for c in clog)
+    nt = inflight >= 2 or qfull or dup_batch or cancel_nt
     n = len(case["requests"])
     labels = [
         "batching" if case["use_batching"] else "no-batching",
@@ -580,6 +700,19 @@ def prop(case):
         labels.append("out-of-order-completion")
     if any(len(r["texts"]) > 16 for r in case["requests"]):
         labels.append("long-list-request")
+    if clog:
+        labels.append("cancellation")
+        if sum(c["effective"] for c in clog) >= 2:
+            labels.append("cancel:2+requests")
+        for c in clog:
+            labels.append("cancel:" + c["phase"])
+            if c["effective"]:
+                r = case["requests"][c["req"]]
+                batched = specs[r.get("ix", 0)]["use_batching"] and r["op"] != "list"
+                labels.append("cancel:batched-request" if batched else "cancel:unbatched-or-list-request")
+                w = "+".join(x for x in ("before", "after") if c[x])
+                labels.append(f"cancel:{c['phase']}:other-requests-waiting:" + (("arrived-" + w) if w else "none"))
+        labels = sorted(set(labels), key=labels.index)
     if multi:
         labels.append(f"indexes:{len(specs)}")
         # what each index embedded (items and requests), to see how often two models met on the same text / cache
@@ -616,6 +749,8 @@ def prop(case):
         "queue_full_arrivals": flags["queue_full_arrivals"],
         "loop_iterations": loop.steps,
     }
+    if clog:
+        view["cancellations"] = clog
     if multi:
         view["other_indexes"] = [{"config": cfgs[k], "items": specs[k]["items"]} for k in range(1, len(specs))]
         view["setup_order"] = case.get("setup_order")
